@@ -43,11 +43,23 @@ def scenario(a):
     viol = []
     info = {"injected": False, "faulty_rc": None, "recovery_rc": []}
     try:
-        src, out = c08.write_state(root, s, path, absolute=True)
+        # every third CLI scenario names its output directory with -o while the configuration file names another one: the directory
+        # that counts (for the files and for the record) is the flag's
+        via_o = path == "cli" and seed % 3 == 0 and kind != "ENOTDIR"
+
+        def ws():
+            r_ = c08.write_state(root, s, path, absolute=True)
+            if via_o:
+                cp_ = os.path.join(root, "cfg.json")
+                c__ = json.load(open(cp_))
+                c__["output_path"] = os.path.join(root, "configured_elsewhere")
+                json.dump(c__, open(cp_, "w"))
+            return r_
+        src, out = ws()
 
         def argv(force=False):
             if path == "cli":
-                return [cli, "tauri-typegen", "generate", "-c", os.path.join(root, "cfg.json")] + (["--force"] if force else [])
+                return [cli, "tauri-typegen", "generate", "-c", os.path.join(root, "cfg.json")] + (["-o", out] if via_o else []) + (["--force"] if force else [])
             return [drv, "build"]
 
         if phase != "first-run":
@@ -59,7 +71,7 @@ def scenario(a):
             c08_edit = dict(s)
             c08_edit.update(cmd_extra=True, field_extra=True, event_extra=True, variant_extra=True)
             s = c08_edit
-            c08.write_state(root, s, path, absolute=True)
+            ws()
         # ---- faulty run; every second scenario makes it a FORCED run (--force / force: true): a forced run that fails must not leave
         #      an older cache record standing either
         forced_fault = seed % 2 == 1 and kind != "ENOTDIR"
@@ -130,7 +142,7 @@ def scenario(a):
             if path == "cli":
                 argv = plain_argv
             elif kind != "ENOTDIR":
-                c08.write_state(root, s, path, absolute=True)
+                ws()
         if rf.timed_out:
             return {"inconclusive": "watchdog"}
         if rf.panicked:
@@ -140,7 +152,7 @@ def scenario(a):
         # ---- did the faulty run claim success without the fresh state?
         if phase == "edit-then-revert":
             s = sA
-            c08.write_state(root, s, path, absolute=True)
+            ws()
         # remove the obstacle
         if obstacle and obstacle[0] == "dir":
             shutil.rmtree(obstacle[1], ignore_errors=True)
@@ -152,7 +164,7 @@ def scenario(a):
                 os.unlink(obstacle[1])
         if obstacle and obstacle[0] == "notdir":
             os.unlink(obstacle[1])
-            c08.write_state(root, s, path, absolute=True)
+            ws()
         if rf.rc == 0 and phase != "edit-then-revert":
             rr, ref = c08.reference(cli, root, s, seed % 97 + 2)
             now = common.read_outputs(out if kind != "ENOTDIR" else out)
@@ -179,7 +191,7 @@ def scenario(a):
                              "after the obstacle was removed, non-forced run %d reported success (last line %r) but %s w.r.t. a fresh generation" % (
                                  k, rr.out.strip().splitlines()[-1][:60] if rr.out.strip() else "", bad)))
                 break
-        wit = {"target": target, "kind": kind, "phase": phase, "mode": mode, "path": path, "hash_seed": seed % 97, "faulty_run_forced": forced_fault, "files": [[p, t] for p, t in c08.render(s)]}
+        wit = {"target": target, "kind": kind, "phase": phase, "mode": mode, "path": path, "hash_seed": seed % 97, "faulty_run_forced": forced_fault, "output_directory_named_by_flag": via_o, "files": [[p, t] for p, t in c08.render(s)]}
         if forced_fault:
             viol = [(a2 + " faulty-run-forced", b2) for (a2, b2) in viol]
             info["forced"] = True
